@@ -881,7 +881,20 @@ func normGuard(s string) string { return strings.Join(strings.Fields(s), "") }
 // sameCondition compares two boolean expressions after replacing receiver
 // variables by their types (wg.counter == 0 in Add vs. in Wait).
 func (m *condModel) sameCondition(f1 *Func, e1 ast.Expr, f2 *Func, e2 ast.Expr) bool {
-	return m.normExpr(f1, e1) == m.normExpr(f2, e2) && m.normExpr(f1, e1) != ""
+	a, b := nonNegNorm(m.normExpr(f1, e1)), nonNegNorm(m.normExpr(f2, e2))
+	return a == b && a != ""
+}
+
+// nonNegNorm: for the counters that V1 keeps non-negative (the invariant check
+// dominates every store), `x <= 0` means `x == 0` and `x > 0` means `x != 0`.
+func nonNegNorm(s string) string {
+	for _, fld := range []string{".counter"} {
+		s = strings.ReplaceAll(s, fld+"<=0", fld+"==0")
+		s = strings.ReplaceAll(s, fld+" <= 0", fld+" == 0")
+		s = strings.ReplaceAll(s, fld+">0", fld+"!=0")
+		s = strings.ReplaceAll(s, fld+" > 0", fld+" != 0")
+	}
+	return s
 }
 
 func (m *condModel) normExpr(f *Func, e ast.Expr) string {
